@@ -6046,3 +6046,104 @@ def eq2(m, run, rule='EQ2.equality-on-pairs-differing-in-one-component'):
                         raise AnalysisError('%s: interpreter met an unsupported construct: %s (%s.%s against %s)' % (fe.key, ex, mod, cname, what))
     run.ob(rule, '%s :: %d ordered pairs' % (fe.key, cnt), not bad, 'equal exactly when no component differs by more than the tolerance; symmetric; != is the negation' if not bad else
            '%s: %s   [%d of %d pairs]' % (bad[0][0], bad[0][1], len(bad), cnt), 'geomdl/abstract.py:%d in %s' % (fe.node.lineno, fe.key))
+
+
+# ====================================================================================== C03: what the knot vector setters accept
+def gd3(m, run, rule='GD3.knot-vector-setters-accept-valid-vectors-only'):
+    """GD3: every public knot vector setter of the six spline classes (knotvector, knotvector_u / _v / _w) interpreted on objects built by the
+    classes' own constructors and setters (different degree and size per direction, knots are order tokens, knotvector.check is the real
+    one): a valid clamped vector of the direction's own length is stored in that direction and in no other; a vector with one knot too
+    many, one too few, a decreasing pair, or the valid vector of another direction (different length) is rejected with an exception and
+    is not what the direction holds afterwards; the list-valued setter stores every direction when all are valid and raises when one is not"""
+    kinds = (('Curve', (2,), (5,)), ('Surface', (2, 1), (5, 4)), ('Volume', (1, 2, 3), (3, 5, 6)))
+    for mod in ('BSpline', 'NURBS'):
+        for cname, degs, sizes in kinds:
+            pdim = len(degs)
+            total = 1
+            for s_ in sizes:
+                total *= s_
+            sfx = [''] if pdim == 1 else ['_' + 'uvw'[d] for d in range(pdim)]
+            bad, cnt = [], 0
+
+            def ranks_of(d, shift=0):
+                p, n = degs[d], sizes[d]
+                return [shift + r for r in [0] * (p + 1) + list(range(1, n - p)) + [n - p] * (p + 1)]
+
+            def fresh():
+                ab = dict(STD_ABSTRACTED)
+                ab[('knotvector', 'normalize')] = Py(lambda sk, node, kv, *a, **k: [Ord(x.rank) for x in kv], 'knotvector.normalize')
+                sk = SK(m, ab)
+                sk.construct = True
+                o_ = sk.apply(('class', (mod, cname)), [], {}, None)
+                for d in range(pdim):
+                    sk.call(m.lookup(o_._cls, 'degree' + sfx[d], 'setters'), [o_, degs[d]], {})
+                hd = 4 if mod == 'NURBS' else 3
+                sk.call(m.lookup(o_._cls, 'set_ctrlpts', 'methods'), [o_, pts(total, hd)] + (list(sizes) if pdim > 1 else []), {})
+                for d in range(pdim):
+                    sk.call(m.lookup(o_._cls, 'knotvector' + sfx[d], 'setters'), [o_, [Ord(r) for r in ranks_of(d)]], {})
+                return sk, o_
+
+            def held(o_):
+                return [[getattr(k, 'rank', None) for k in kv] for kv in o_._a['_knot_vector']]
+
+            def attempt(name, value):
+                sk, o_ = fresh()
+                before = held(o_)
+                try:
+                    sk.call(m.lookup(o_._cls, name, 'setters'), [o_, value], {})
+                    return 'stored', before, held(o_)
+                except Violation as v:
+                    if v.rule != 'RAISE':
+                        raise
+                    return 'raised', before, held(o_)
+            try:
+                for d in range(pdim):
+                    name = 'knotvector' + sfx[d]
+                    if m.lookup((mod, cname), name, 'setters') is None:
+                        raise AnalysisError('%s.%s: no setter %s' % (mod, cname, name))
+                    good = ranks_of(d, 100)
+                    cases = [('a valid vector', good, True),
+                             ('a vector with one knot too many', good + [good[-1]], False),
+                             ('a vector with one knot too few', good[:-1], False),
+                             ('a vector with a decreasing pair', good[:degs[d] + 1] + [good[-1] + 1] + good[degs[d] + 1:], False)]
+                    for d2 in range(pdim):
+                        if d2 != d and len(ranks_of(d2)) != len(good):
+                            cases.append(('the valid vector of direction %s' % 'uvw'[d2], ranks_of(d2, 100), False))
+                    for what, rk, ok in cases:
+                        cnt += 1
+                        res, before, after = attempt(name, [Ord(r) for r in rk])
+                        if ok:
+                            want = list(before)
+                            want[d] = rk
+                            if res != 'stored' or after != want:
+                                bad.append(('%s = %s' % (name, what), 'the setter %s; the direction holds %r afterwards' % ('raises' if res == 'raised' else 'returns', after[d])))
+                        else:
+                            if res != 'raised':
+                                bad.append(('%s = %s' % (name, what), 'accepted: the object now holds a knot vector that knotvector.check rejects for degree %d and %d control points' % (degs[d], sizes[d])))
+                            elif after[d] == rk:
+                                bad.append(('%s = %s' % (name, what), 'an exception is raised but the rejected vector is stored'))
+                if pdim > 1:
+                    name = 'knotvector'
+                    if m.lookup((mod, cname), name, 'setters') is None:
+                        raise AnalysisError('%s.%s: no setter knotvector' % (mod, cname))
+                    cnt += 1
+                    allgood = [ranks_of(d, 100) for d in range(pdim)]
+                    res, before, after = attempt(name, [[Ord(r) for r in rk] for rk in allgood])
+                    if res != 'stored' or after != allgood:
+                        bad.append(('knotvector = valid vectors for every direction', 'the setter %s; the object holds %r' % ('raises' if res == 'raised' else 'returns', after)))
+                    for d in range(pdim):
+                        cnt += 1
+                        val = [list(rk) for rk in allgood]
+                        val[d] = val[d][:-1]
+                        res, before, after = attempt(name, [[Ord(r) for r in rk] for rk in val])
+                        if res != 'raised':
+                            bad.append(('knotvector = vectors of which the one of direction %s is one knot short' % 'uvw'[d], 'accepted'))
+                        elif after[d] == val[d]:
+                            bad.append(('knotvector = vectors of which the one of direction %s is one knot short' % 'uvw'[d], 'an exception is raised but the rejected vector is stored'))
+            except Violation as v:
+                bad.append(('setting up the object', '%s %s' % (v.msg, v.where())))
+            except Unsupported as ex:
+                raise AnalysisError('%s.%s knot vector setters: interpreter met an unsupported construct: %s' % (mod, cname, ex))
+            ci = m.classes[(mod, cname)]
+            run.ob(rule, '%s.%s :: %d assignments' % (mod, cname, cnt), not bad, 'valid vectors are stored in their own direction, invalid ones rejected and not stored' if not bad else
+                   '%s: %s   [%d of %d]' % (bad[0][0], bad[0][1], len(bad), cnt), 'geomdl/%s.py:%d in %s.%s' % (mod, ci.node.lineno, mod, cname))
